@@ -305,7 +305,7 @@ def exhaustive_part(ctx, n_hosts_max, worker, nworkers, sample_fraction=1.0):
                 positions = spread_positions(T, len(key_pool(part)), idx)
                 world = World(part, owners, locs, positions)
                 configs = all_configs(set(l[0] for l in locs), 4, extra_dc=True)
-                judge_world(ctx, world, configs, probes_per_ks=min(len(world.pool), T + 4), rng=rng, origin="exhaustive")
+                judge_world(ctx, world, configs, probes_per_ks=min(len(world.pool), T + (4 if n <= 3 else 2)), rng=rng, origin="exhaustive")
                 ctx.count("exhaustive_rings")
     return idx
 
